@@ -2128,11 +2128,11 @@ class Component(System):
 
         self._check_fds_differ(method, step, form, step_calc, minimum_step)
 
-        # Make sure we're in a valid state
-        self.run_apply_nonlinear()
-
         input_cache = self._inputs.asarray(copy=True)
         output_cache = self._outputs.asarray(copy=True)
+
+        # Make sure we're in a valid state
+        self.run_apply_nonlinear()
 
         local_opts = self._get_check_partial_options()
 
@@ -2447,6 +2447,10 @@ class Component(System):
                             if 'directional_fd_rev' not in deriv:
                                 deriv['directional_fd_rev'] = []
                             deriv['directional_fd_rev'].append((dhat.dot(d), mhat.dot(m)))
+
+        # apply_nonlinear of an explicit component rebuilds its outputs as compute - (compute - outputs),
+        # which need not be bit-for-bit the value it started with, so put the original outputs back.
+        self._outputs.set_val(output_cache)
 
         # convert to regular dict from defaultdict
         partials_data = {key: dict(d) for key, d in partials_data.items()}
